@@ -14,20 +14,30 @@ TECHNIQUE = ("reference model of the documented trans-block semantics + recordin
              "translations + extraction membership check")
 RULE = ("case = (generated trans block [context string, trimmed/notrimmed, 0-3 bindings: bare / "
         "name=var / attr / filter / const / call, text pieces with % %% %s %(x)s { } newlines "
-        "markup, pluralize with/without explicit count, whitespace control on the tags], wrapper "
-        "[plain/if/for/macro/block], data) x (old|new style) x (autoescape on|off) x (policy "
-        "ext.i18n.trimmed on|off); + a table of gettext/ngettext/pgettext/npgettext expression "
+        "markup, pluralize with/without explicit count, whitespace control on the tags, optional "
+        "documentation-style layout: text starts on the line after the tag, closing/pluralize tag "
+        "indented on its own line], wrapper [plain/if/for/macro/block/{% autoescape true|false|"
+        "runtime flag %}], data) x (old|new style) x (env autoescape on|off) x (policy "
+        "ext.i18n.trimmed on|off) x (trim_blocks, lstrip_blocks in all 4 combinations, set on the "
+        "environment and passed as options to babel_extract); + a table of gettext/ngettext/pgettext/npgettext expression "
         "calls. distinct = distinct (style, autoescape, policy, ctx?, trim flag, binding kinds, "
-        "plural mode, text feature set, wrapper, tag whitespace control) tuples of blocks with a "
-        "non-empty singular body")
+        "plural mode, text feature set, wrapper, tag whitespace control, lexer options, layout) "
+        "tuples of blocks with a non-empty singular body")
 LEVEL_TEXT = ("held (modulo listed known findings) on K generated block renders: output == model "
-              "text, recorded count argument == model count, every runtime message in both "
-              "extractors' output; generated blocks only")
+              "text (variables escaped iff autoescaping is in force at the block, incl. constant and "
+              "runtime {% autoescape %} overrides), recorded count argument == model count, every "
+              "runtime message in extract_from_ast(env.parse) and in babel_extract called with the "
+              "environment's trimmed / newstyle / trim_blocks / lstrip_blocks options; default "
+              "delimiters, generated blocks only")
 ASSUMPTIONS = [
     "identity translations: gettext(m)=m, ngettext(s,p,n)= s if n==1 else p (gettext.NullTranslations semantics)",
     "implicit plural count is only generated where 'first variable' is unambiguous (first binding is also "
     "the first variable used in the singular text, or there are no bindings)",
     "binding expressions are pure; values are str/int/float/Markup/None",
+    "lstrip_blocks is only credited with removing spaces/tabs that follow a line break inside the same "
+    "text run (the documented 'from the start of a line to a block'); trim_blocks with one '\\n' "
+    "directly after a block tag; other line-break forms and custom delimiters are not generated",
+    "{% autoescape expr %} with a runtime value is taken to work like the documented constant forms",
 ]
 NSHARDS = {"quick": 16, "thorough": 16}
 BUDGET_S = {"quick": 12, "thorough": 300}
@@ -38,7 +48,11 @@ FLOORS = {
                            "extract_babel_checks": 5000, "plural_blocks": 2000,
                            "count_arg_checks": 2200, "style:old": 2200, "style:new": 2200,
                            "autoescape_on": 2200, "trimmed_effective": 2200, "ctx_blocks": 2200,
-                           "pct_blocks": 2200, "exprcall_checks": 200}},
+                           "pct_blocks": 2200, "exprcall_checks": 200,
+                           "lexopt_exactly_one": 2200, "lexopt_exactly_one+layout": 700,
+                           "layout_blocks": 1400, "autoescape_override_blocks": 1700,
+                           "autoescape_runtime_differs_from_env": 400,
+                           "autoescape_runtime_differs:old+refs": 120}},
     # thorough: 1.70M evaluations / 817k distinct (count-bounded) at load ~1x,
     # 571k / 340k (time-boxed) at load ~5x; floors = 1/4 of the latter
     "thorough": {"evaluations": 150000, "distinct": 85000,
@@ -46,7 +60,11 @@ FLOORS = {
                               "extract_babel_checks": 165000, "plural_blocks": 64000,
                               "count_arg_checks": 75000, "style:old": 70000, "style:new": 70000,
                               "autoescape_on": 70000, "trimmed_effective": 70000,
-                              "ctx_blocks": 70000, "pct_blocks": 70000, "exprcall_checks": 200}},
+                              "ctx_blocks": 70000, "pct_blocks": 70000, "exprcall_checks": 200,
+                              "lexopt_exactly_one": 70000, "lexopt_exactly_one+layout": 24000,
+                              "layout_blocks": 48000, "autoescape_override_blocks": 55000,
+                              "autoescape_runtime_differs_from_env": 13000,
+                              "autoescape_runtime_differs:old+refs": 4000}},
 }
 
 NAMES = ["user", "count", "num", "n", "title", "who", "x"]
@@ -176,14 +194,40 @@ def gen_block(r):
         sing = body(need_first)
         plur = body() if plural else None
     ws = {k: r.random() < 0.12 for k in ("trans_r", "plur_l", "plur_r", "end_l")}
+    # the layout of the documentation's examples: the text starts on the line
+    # after the tag and the closing / pluralize tag is indented on its own line
+    layout = r.random() < 0.35
+    if layout:
+        ind = r.choice(["", "  ", "    ", "\t"])
+        sing = [["t", "\n" + ind]] + sing + [["t", "\n" + r.choice(["", ind, "  "])]]
+        if plur is not None:
+            plur = [["t", "\n" + ind]] + plur + [["t", "\n" + r.choice(["", ind, "\t"])]]
+    wrap = r.choice(["plain", "plain", "if", "for", "macro", "block", "ae-true", "ae-false",
+                     "ae-dyn", "ae-dyn"])
+    if wrap == "ae-dyn":
+        # {% autoescape expr %} with a value only known at render time
+        data["ae_flag"] = ["bool", r.random() < 0.5]
     return {
         "ctx": r.choice([None, None, None, "fruit", "ctx % s", "menu"]),
         "trim": r.choice([None, None, "trimmed", "notrimmed"]),
         "binds": binds, "sing": sing, "plur": plur, "plvar": plvar,
-        "count_name": count_name, "ws": ws,
-        "wrap": r.choice(["plain", "plain", "if", "for", "macro", "block"]),
+        "count_name": count_name, "ws": ws, "layout": layout,
+        "wrap": wrap,
         "data": data,
     }
+
+
+def effective_autoescape(b, env_autoescape):
+    """Autoescaping in force at the trans block (docs/templates.rst
+    'Autoescape Overrides')."""
+    w = b["wrap"]
+    if w == "ae-true":
+        return True
+    if w == "ae-false":
+        return False
+    if w == "ae-dyn":
+        return bool(b["data"]["ae_flag"][1])
+    return env_autoescape
 
 
 def block_source(b):
@@ -226,16 +270,27 @@ def block_source(b):
         s = "{% macro mm() %}" + s + "{% endmacro %}{{ mm() }}"
     elif w == "block":
         s = "{% block bb %}" + s + "{% endblock %}"
+    elif w in ("ae-true", "ae-false"):
+        s = "{% autoescape " + w[3:] + " %}" + s + "{% endautoescape %}"
+    elif w == "ae-dyn":
+        s = "{% autoescape ae_flag %}" + s + "{% endautoescape %}"
     return "A|" + s + "|Z"
 
 
 _trim_re = re.compile(r"\s*\n\s*")
 
 
-def model(b, autoescape, policy_trimmed, variant="spec"):
+_lstrip_re = re.compile(r"\n[ \t]*\Z")
+
+
+def model(b, autoescape, policy_trimmed, variant="spec", lex=(False, False)):
     """-> (expected output of the whole template, count value or None, nforms).
-    variant selects deviation models used only to *name* a mismatch."""
+    variant selects deviation models used only to *name* a mismatch.
+    lex = (trim_blocks, lstrip_blocks) of the environment."""
     from markupsafe import Markup, escape
+
+    autoescape = effective_autoescape(b, autoescape)
+    trim_blocks, lstrip_blocks = lex
 
     data = {k: make_value(v) for k, v in b["data"].items()}
     vals = {}
@@ -279,13 +334,25 @@ def model(b, autoescape, policy_trimmed, variant="spec"):
             merged[-1][1] += p[1]
         else:
             merged.append(p)
-    if merged and merged[0][0] == "t":
-        if (is_sing and ws["trans_r"]) or (not is_sing and ws["plur_r"]):
-            merged[0][1] = merged[0][1].lstrip()
+    # text directly before the pluralize / endtrans tag: '-' strips all
+    # whitespace; lstrip_blocks strips "tabs and spaces from the beginning of
+    # a line to the start of a block" (decided on the source text, i.e. before
+    # trim_blocks removes anything)
     if merged and merged[-1][0] == "t":
         if (is_sing and b["plur"] is not None and ws["plur_l"]) or \
                 ((not is_sing or b["plur"] is None) and ws["end_l"]):
             merged[-1][1] = merged[-1][1].rstrip()
+        elif lstrip_blocks:
+            m = _lstrip_re.search(merged[-1][1])
+            if m:
+                merged[-1][1] = merged[-1][1][:m.start() + 1]
+    # text directly after the trans / pluralize tag: '-' strips all whitespace;
+    # trim_blocks removes "the first newline after a template tag"
+    if merged and merged[0][0] == "t":
+        if (is_sing and ws["trans_r"]) or (not is_sing and ws["plur_r"]):
+            merged[0][1] = merged[0][1].lstrip()
+        elif trim_blocks and merged[0][1].startswith("\n"):
+            merged[0][1] = merged[0][1][1:]
     for i, p in enumerate(merged):
         if p[0] == "v" and p[2]:
             if p[2] in ("-", "l") and i > 0 and merged[i - 1][0] == "t":
@@ -353,13 +420,13 @@ class Recorder:
 _ENVS = {}
 
 
-def get_env(newstyle, autoescape, policy):
+def get_env(newstyle, autoescape, policy, lex=(False, False)):
     import jinja2
 
-    key = (newstyle, autoescape, policy)
+    key = (newstyle, autoescape, policy, tuple(lex))
     if key not in _ENVS:
         env = jinja2.Environment(extensions=["jinja2.ext.i18n"], autoescape=autoescape,
-                                 cache_size=0)
+                                 cache_size=0, trim_blocks=lex[0], lstrip_blocks=lex[1])
         env.policies["ext.i18n.trimmed"] = policy
         rec = Recorder()
         env.install_gettext_callables(rec.gettext, rec.ngettext, newstyle=newstyle,
@@ -369,8 +436,9 @@ def get_env(newstyle, autoescape, policy):
     return _ENVS[key]
 
 
-def extracted_sets(env, src, newstyle, policy):
-    """-> (set of string tuples from extract_from_ast, same from babel_extract)"""
+def extracted_sets(env, src, newstyle, policy, lex=(False, False)):
+    """-> (set of string tuples from extract_from_ast, same from babel_extract
+    called with the options that describe env)"""
     from jinja2.ext import GETTEXT_FUNCTIONS, babel_extract, extract_from_ast
 
     def strings(msg):
@@ -379,7 +447,8 @@ def extracted_sets(env, src, newstyle, policy):
         return (msg,) if msg is not None else ()
 
     a = {strings(m) for _, _, m in extract_from_ast(env.parse(src))}
-    opts = {"silent": "false"}
+    opts = {"silent": "false", "trim_blocks": "true" if lex[0] else "false",
+            "lstrip_blocks": "true" if lex[1] else "false"}
     if policy:
         opts["trimmed"] = "true"
     if newstyle:
@@ -415,25 +484,44 @@ def m1_applies(b, feats, newstyle):
     return (not newstyle) and "unreferenced-bindings" in feats and "pct" in feats
 
 
-def _safe_model(b, autoescape, policy, variant):
+def _safe_model(b, autoescape, policy, variant, lex=(False, False)):
     try:
-        return model(b, autoescape, policy, variant)[0]
+        return model(b, autoescape, policy, variant, lex)[0]
     except Exception:  # noqa: BLE001
         return None
 
 
-def check_block(ctx, b, newstyle, autoescape, policy):
+def check_block(ctx, b, newstyle, autoescape, policy, lex=(False, False)):
+    lex = (bool(lex[0]), bool(lex[1]))
     style = "new" if newstyle else "old"
-    env, rec = get_env(newstyle, autoescape, policy)
+    env, rec = get_env(newstyle, autoescape, policy, lex)
     src = block_source(b)
     case = {"kind": "block", "block": b, "newstyle": newstyle, "autoescape": autoescape,
-            "policy": policy, "src": src}
+            "policy": policy, "lex": list(lex), "src": src}
     feats = features(b)
-    exp, count, nforms = model(b, autoescape, policy)
+    exp, count, nforms = model(b, autoescape, policy, lex=lex)
+    env_autoescape = autoescape
+    autoescape = effective_autoescape(b, env_autoescape)   # in force at the block
+    # mechanism suffixes: which lexer option / autoescape override is involved
+    lexkey = {(False, False): "", (True, False): ":trim_blocks", (False, True): ":lstrip_blocks",
+              (True, True): ":trim+lstrip_blocks"}[lex]
+    aekey = ":" + b["wrap"] if b["wrap"].startswith("ae-") else ""
     ctx.ev()
     ctx.count("style:" + style)
     if autoescape:
         ctx.count("autoescape_on")
+    if aekey:
+        ctx.count("autoescape_override_blocks")
+        if b["wrap"] == "ae-dyn" and autoescape != env_autoescape:
+            ctx.count("autoescape_runtime_differs_from_env")
+            if not newstyle and "refs" in feats:
+                ctx.count("autoescape_runtime_differs:old+refs")
+    if lex[0] != lex[1]:
+        ctx.count("lexopt_exactly_one")
+        if b.get("layout"):
+            ctx.count("lexopt_exactly_one+layout")
+    if b.get("layout"):
+        ctx.count("layout_blocks")
     if b["ctx"] is not None:
         ctx.count("ctx_blocks")
     if "pct" in feats:
@@ -450,7 +538,7 @@ def check_block(ctx, b, newstyle, autoescape, policy):
     except Exception as e:  # noqa: BLE001
         if m1_applies(b, feats, newstyle):
             try:
-                model(b, autoescape, policy, "m1-old-unreferenced")
+                model(b, env_autoescape, policy, "m1-old-unreferenced", lex)
             except Exception as e1:  # noqa: BLE001
                 if type(e1) is type(e):
                     ctx.violation(M1_KEY, f"{style} style autoescape={autoescape}: {src!r} with "
@@ -467,7 +555,7 @@ def check_block(ctx, b, newstyle, autoescape, policy):
         return
     ctx.count("render_checks")
     if got != exp and m1_applies(b, feats, newstyle) and \
-            _safe_model(b, autoescape, policy, "m1-old-unreferenced") == got:
+            _safe_model(b, env_autoescape, policy, "m1-old-unreferenced", lex) == got:
         ctx.violation(M1_KEY, f"{style} style autoescape={autoescape}: {src!r} with {b['data']} "
                               f"rendered {got!r}, documented text {exp!r}", case)
     elif got != exp:
@@ -475,14 +563,16 @@ def check_block(ctx, b, newstyle, autoescape, policy):
         for variant in ("swap-form", "flip-trim", "pct-halved", "pct-doubled", "flip-escape",
                         "escape-all"):
             try:
-                if model(b, autoescape, policy, variant)[0] == got:
+                if model(b, env_autoescape, policy, variant, lex)[0] == got:
                     why = variant
                     break
             except Exception:  # noqa: BLE001
                 pass
         ctx.violation(f"render-mismatch:{why}:{style}" + (":autoescape" if autoescape and
                                                          why in ("text", "flip-escape", "escape-all")
-                                                         else ""),
+                                                         else "")
+                      + (aekey if why in ("text", "flip-escape", "escape-all") else "")
+                      + (lexkey if why == "text" else ""),
                       f"{style} style autoescape={autoescape} policy_trimmed={policy}: {src!r} with "
                       f"{b['data']} rendered {got!r}, documented text {exp!r}", case)
     # the count handed to the plural function
@@ -504,27 +594,30 @@ def check_block(ctx, b, newstyle, autoescape, policy):
             ctx.violation(f"context-string:{style}", f"{src!r}: context passed as {strs[0]!r}", case)
     # extraction
     try:
-        ex_ast, ex_babel = extracted_sets(env, src, newstyle, policy)
+        ex_ast, ex_babel = extracted_sets(env, src, newstyle, policy, lex)
     except Exception as e:  # noqa: BLE001
         ctx.violation(f"extract-raises:{type(e).__name__}", f"{src!r}: {e}", case)
         return
     for fn, strs, n in calls:
         ctx.count("extract_ast_checks")
         if strs not in ex_ast:
-            ctx.violation("extract_from_ast:missing:" + fn + (":policy-trimmed" if policy else ""),
+            ctx.violation("extract_from_ast:missing:" + fn + (":policy-trimmed" if policy else "")
+                          + lexkey,
                           f"{src!r}: runtime {fn}{strs!r} not in extract_from_ast {sorted(ex_ast)!r}",
                           case)
         ctx.count("extract_babel_checks")
         if strs not in ex_babel:
             ctx.violation("babel_extract:missing:" + fn + (":policy-trimmed" if policy else "")
-                          + (":newstyle" if newstyle else ""),
-                          f"{src!r}: runtime {fn}{strs!r} not in babel_extract {sorted(ex_babel)!r}",
+                          + (":newstyle" if newstyle else "") + lexkey,
+                          f"{src!r} options trim_blocks={lex[0]} lstrip_blocks={lex[1]}: runtime "
+                          f"{fn}{strs!r} not in babel_extract {sorted(ex_babel)!r}",
                           case)
     if b["sing"]:
         ctx.dist((style, autoescape, policy, b["ctx"] is not None, b["trim"],
                   [bd[1] for bd in b["binds"]],
                   "none" if b["plur"] is None else ("explicit" if b["plvar"] else "implicit"),
-                  sorted(feats), b["wrap"], sorted(k for k, v in b["ws"].items() if v)))
+                  sorted(feats), b["wrap"], sorted(k for k, v in b["ws"].items() if v),
+                  lex, bool(b.get("layout"))))
 
 
 # gettext calls in expressions (docs/templates.rst i18n, docs/extensions.rst
@@ -609,7 +702,9 @@ def run(ctx):
         # all 8 combinations on every 4th block, else 3 sampled
         use = combos if i % 4 == 0 else rng.sample(combos, 3)
         for ns, ae, pol in use:
-            check_block(ctx, b, ns, ae, pol)
+            # environment lexer options, handed to babel_extract as its options
+            lex = rng.choice([(False, False), (True, False), (False, True), (True, True)])
+            check_block(ctx, b, ns, ae, pol, lex)
         if i < 4:
             ctx.sample({"src": block_source(b), "data": b["data"]})
         i += 1
@@ -619,4 +714,5 @@ def replay(ctx, case):
     if case["kind"] == "exprcall":
         check_exprcall(ctx, case["index"])
     else:
-        check_block(ctx, case["block"], case["newstyle"], case["autoescape"], case["policy"])
+        check_block(ctx, case["block"], case["newstyle"], case["autoescape"], case["policy"],
+                    tuple(case.get("lex", (False, False))))
